@@ -203,3 +203,9 @@ ADDED3 = {
 for _d in (ADDED, ADDED3):
     for _k, _v in _d.items():
         CHECKS[_k]['text'] += ' ' + _v
+
+from .depends import DEPENDS as _DEP
+for _k, _lst in _DEP.items():
+    _items = [f"{', '.join(rules)} from {mod.upper()} ({why})" for mod, rules, why in _lst if rules]
+    if _items:
+        CHECKS[_k]['text'] += ' Necessary conditions adopted from other properties\' rule sets (lecverif/depends.py): ' + '; '.join(_items) + '.'
